@@ -37,6 +37,29 @@ pub struct HistInfo {
     pub max_mutations_before_failure: usize,
     pub dumps: usize,
     pub trace: Vec<String>,
+    /// per query kind: (accepted, rejected)
+    pub kinds: std::collections::BTreeMap<&'static str, (u64, u64)>,
+}
+
+impl HistInfo {
+    pub fn note(&mut self, kind: &'static str, ok: bool) {
+        let e = self.kinds.entry(kind).or_default();
+        if ok {
+            e.0 += 1;
+        } else {
+            e.1 += 1;
+        }
+    }
+    pub fn export(&self, ci: &mut crate::core::CaseInfo) {
+        for (k, (a, r)) in &self.kinds {
+            if *a > 0 {
+                ci.count(format!("accepted {k}"), *a);
+            }
+            if *r > 0 {
+                ci.count(format!("rejected {k}"), *r);
+            }
+        }
+    }
 }
 
 pub enum StepResult {
@@ -49,6 +72,7 @@ pub fn run_step<S: StorageData>(model: &mut RefDb, db: &mut DbImpl<S>, s: &Step,
     match s {
         Step::Q(q) => {
             let out = step(model, db, q)?;
+            info.note(out.resolved.kind(), out.ok);
             info.trace.push(format!("{:?} -> {}", out.resolved, if out.ok { "Ok" } else { "Err" }));
             if out.ok {
                 Ok(StepResult::Ok)
@@ -61,6 +85,7 @@ pub fn run_step<S: StorageData>(model: &mut RefDb, db: &mut DbImpl<S>, s: &Step,
             let fail: RefCell<Option<Fail>> = RefCell::new(None);
             let done = RefCell::new(0usize);
             let trace = RefCell::new(vec![]);
+            let kinds: RefCell<Vec<(&'static str, bool)>> = RefCell::new(vec![]);
             let model_cell = RefCell::new(&mut *model);
             let res = catch(|| {
                 db.transaction_mut(|t| -> Result<(), DbError> {
@@ -71,6 +96,7 @@ pub fn run_step<S: StorageData>(model: &mut RefDb, db: &mut DbImpl<S>, s: &Step,
                         let mut m = model_cell.borrow_mut();
                         match step(&mut m, t, q) {
                             Ok(out) => {
+                                kinds.borrow_mut().push((out.resolved.kind(), out.ok));
                                 trace.borrow_mut().push(format!("  tx {:?} -> {}", out.resolved, if out.ok { "Ok" } else { "Err" }));
                                 if !out.ok {
                                     return Err(crate::core::db_err("query failed inside transaction"));
@@ -96,6 +122,9 @@ pub fn run_step<S: StorageData>(model: &mut RefDb, db: &mut DbImpl<S>, s: &Step,
             drop(model_cell);
             info.trace.push(format!("transaction(fail_after={fail_after:?})"));
             info.trace.extend(trace.into_inner());
+            for (k, ok) in kinds.into_inner() {
+                info.note(k, ok);
+            }
             if let Some(f) = fail.into_inner() {
                 return Err(f);
             }
